@@ -9,7 +9,7 @@ Evidence and replays of these runs go to a scratch directory, not to /verif/evid
 import sys, os, json, subprocess, shutil, time, re
 V = os.path.dirname(os.path.dirname(os.path.abspath(__file__)))
 sys.path.insert(0, os.path.join(V, "tools"))
-REPO = "/repo"
+REPO = os.environ.get("VERIF_REPO", "/repo")
 ENV = dict(os.environ, CARGO_NET_OFFLINE="true")
 
 
@@ -19,9 +19,8 @@ def sh(cmd, cwd=None, timeout=3600):
     return p.returncode, p.stdout
 
 
-def confirm(seed):
+def confirm(seed, wt="/tmp/seedconfirm-wt"):
     meta = json.load(open(os.path.join(seed, "meta.json")))
-    wt = "/tmp/seedconfirm-wt"
     sh(["git", "-C", REPO, "worktree", "remove", "--force", wt])
     shutil.rmtree(wt, ignore_errors=True)
     rc, out = sh(["git", "-C", REPO, "worktree", "add", "--detach", wt, "HEAD"])
@@ -94,7 +93,7 @@ def run(seed, ids):
 if __name__ == "__main__":
     cmd, seed = sys.argv[1], sys.argv[2]
     if cmd == "confirm":
-        r = confirm(seed)
+        r = confirm(seed, *(sys.argv[3:4]))
     else:
         r = run(seed, sys.argv[3:])
     print(json.dumps(r, indent=1))
